@@ -674,7 +674,7 @@ class Generator(TreeListener):
             ast_walker.walk(self, tree)
 
             # Obtain expression
-            expr = self.get_mx(tree)
+            expr = ca.MX(self.get_mx(tree))
 
             # Obtain the symbols it depends on
             free_vars = ca.symvar(expr)
